@@ -200,6 +200,9 @@ pub struct Hist {
     pub reader_logs: std::collections::BTreeMap<u32, Vec<(u64, u64, SampleRec)>>,
     /// explicit source timestamps used by W ops (uid -> absolute ns)
     pub w_ts: std::collections::BTreeMap<u32, i64>,
+    /// (step, t, participant, discovered set) at every change seen by a WatchDiscovered daemon, plus every poll time
+    pub discovery_log: Vec<(u64, u64, u32, Vec<Hd>)>,
+    pub discovery_polls: std::collections::BTreeMap<u32, Vec<u64>>,
 }
 
 thread_local! {
